@@ -23,6 +23,12 @@ field menus x align_corners x dtype x batch size x argument forms. Sub-checks:
                        configurations (align_corners x dtype) of compose_flows and of compose_svfs, plus other-shape /
                        logv / expv / lie_bracket predecessors, are called one after the other in ONE process and every
                        call is judged by its closed form (a stateless API must not remember earlier calls)
+    spacing-forms      lie_bracket / compose_svfs with every form of `spacing` x N in {1,2,3}: batched == per-item,
+                       antisymmetry, bilinearity, closed forms on affine fields sampled with per-item spacing
+    logv-options       logv(expv(v)) over exp_steps {0,1,default} x num_iters {1,2,3} x sigma {None,1} x bch_terms {0,1}:
+                       error <= 0.5 A, given field not overwritten, call repeatable
+    input-unchanged    every anchor function (expv option lattice, compose_flows, compose_svfs, lie_bracket, logv option
+                       lattice): the field arguments are bit-identical and unwritten (_version) after the call
     logv-roundtrip     |logv(expv(v)) - v| <= 0.5 A samples, err(A) <= 8 err(A/2) + 1e-4, and the errors under the
                        two conventions stay within a factor 1.5 (+1e-4) of each other
 """
@@ -40,11 +46,15 @@ PROPERTY = "C13"
 RULE = (
     "complete products of field menus (affine generators with hull invariance verified by the reference, smooth "
     "band-limited fields vanishing on the boundary with amplitudes 0.05..0.5 samples, generic non-affine fields) x "
-    "align_corners x float32/float64 x batch sizes x bch_terms 0..5 x num_iters {1,3,5} x keyword forms; distinct = "
+    "align_corners x float32/float64 x batch sizes x bch_terms 0..5 x num_iters {1,3,5} x keyword forms; every form of the "
+    "spacing argument (None, scalar, (D,), (1,D), (N,1), (N,D) tensor and nested list with different rows) x N in {1,2,3} "
+    "for lie_bracket / compose_svfs; the option lattice exp_steps {0,1,default} x num_iters {1,2,3} x sigma {None,1} x "
+    "bch_terms {0,1} of logv and steps {0,1,default} x scale {None,1,0.5,-1} x inverse of expv, each call also judged for "
+    "leaving the given fields bit-identical; ordered call sequences (hidden state); distinct = "
     "hash of the returned tensor; non-trivial = the result differs from the trivial answer (u+v for compositions, 0 "
     "for brackets) by more than 1e-3 of its magnitude, or for round trips the displacement exceeds half the amplitude"
 )
-EXPLANATION = "bounded exhaustive enumeration of composition calls against closed forms and algebraic relations"
+EXPLANATION = "bounded exhaustive enumeration of composition calls, argument forms, option boundary values and call sequences against closed forms, algebraic relations and input fingerprints"
 ASSUMPTIONS = [
     "compose_flows on affine pairs is judged only if the reference verifies that x -> x + u(x) maps the sample hull "
     "(half width 1 for align_corners=True, 1-1/n otherwise) into itself; the second field is unconstrained",
@@ -59,6 +69,11 @@ ASSUMPTIONS = [
     "S2 = sum over axes of the largest second difference; this relation is the weakest claim (DESIGN section 7)",
     "logv bound 0.5*A samples and the factors 8 and 1.5 are the constants stated in DESIGN.md section 4 (C13); "
     "observed on the pinned tree: err = 0.04..0.27 A^2, err(A)/err(A/2) = 3.7..4, convention ratio 0.84..1.19",
+    "spacing forms: item i of a batch is an affine (or generic) field sampled on a centred lattice with the spacing the "
+    "form denotes for that item; expected bracket (VU-UV)x and documented BCH partial sums; the per-item reference call "
+    "passes the item's row as a (D,) vector; tolerance = the bracket rounding model with that item's smallest spacing",
+    "input-unchanged: bit pattern (NaN-safe), data_ptr, shape/stride and Tensor._version of every field argument before "
+    "and after the call; returning the argument itself (expv steps=0, scale 1) is allowed, writing into it is not",
     "CPU tensors; D in {2, 3}",
 ]
 MIN_NONTRIVIAL = {"quick": 5000, "thorough": 12000}
@@ -67,6 +82,7 @@ MIN_SUB_TRACES = {
     "compose-affine": 1000, "compose-identity": 200, "compose-flag": 100, "bracket-antisym": 100,
     "bracket-bilinear": 500, "bch-commuting": 500, "bch-affine-series": 500, "bch-affine-error": 50,
     "bch-smooth-error": 20, "logv-roundtrip": 100, "call-sequence": 150, "compose-translation": 500,
+    "spacing-forms": 300, "input-unchanged": 400, "logv-options": 200,
 }
 
 C = 64.0
@@ -167,6 +183,12 @@ def bounds(tier):
         "amplitudes_samples": [0.1, 0.25, 0.5, 0.05, 0.125],
         "bilinear_coefficients": [[2.0, -0.5], [-0.5, 2.0]],
         "commuting_pairs": [list(p[:2]) for p in commuting_pairs()],
+        "spacing_forms": SPACING_FORMS,
+        "spacing_batch_sizes": [1, 2, 3],
+        "spacing_rows_per_item": H_ROWS,
+        "spacing_shapes": [list(s) for s in SPACING_SHAPES],
+        "logv_options": {"exp_steps": [0, 1, None], "num_iters": [1, 2, 3], "sigma": [None, 1.0], "bch_terms": [0, 1], "amplitudes": [0.1, 0.5]},
+        "anchor_calls_fingerprinted": len(anchor_calls(2)),
     }
 
 
@@ -968,6 +990,302 @@ def case_compose_translation(case) -> Result:
     return r
 
 
+
+# ---------------------------------------------------------------------------
+# round 4 (a): every accepted FORM of the spacing argument x batch sizes
+SPACING_FORMS = ["none", "scalar", "vector", "(1,D)", "(N,1)", "(N,D)", "(N,D)-list"]
+H_ROWS = [[0.5, 1.25, 0.75], [2.0, 0.375, 1.5], [0.3, 0.7, 1.1]]  # per item, x first; last row is not float32
+H_ISO = [0.5, 2.0, 0.3]
+SPACING_SHAPES = [(5, 7), (3, 4, 5)]
+ITEM_PAIRS = [("rot", "shear"), ("generic", "skew"), ("expand", "diag")]
+
+
+def spacing_of(form: str, shape, N: int):
+    """(argument passed to deepali, per-item spacing H[N, D] it denotes, x first)."""
+    D = len(shape)
+    if form == "none":
+        h = [2.0 / (n - 1) for n in reversed(shape)]
+        return None, np.array([h] * N)
+    if form == "scalar":
+        return 0.75, np.full((N, D), 0.75)
+    if form == "vector":
+        return tuple(H_ROWS[0][:D]), np.array([H_ROWS[0][:D]] * N)
+    if form == "(1,D)":
+        return torch.tensor([H_ROWS[1][:D]], dtype=torch.float64), np.array([H_ROWS[1][:D]] * N)
+    if form == "(N,1)":
+        return torch.tensor([[H_ISO[i]] for i in range(N)], dtype=torch.float32), np.array([[H_ISO[i]] * D for i in range(N)])
+    H = np.array([H_ROWS[i][:D] for i in range(N)])
+    if form == "(N,D)":
+        return torch.tensor(H, dtype=torch.float64), H
+    if form == "(N,D)-list":
+        return [list(map(float, row)) for row in H], H
+    raise KeyError(form)
+
+
+def lattice_points(shape, h) -> np.ndarray:
+    """Physical sample positions of a centred lattice with spacing h (x first): shape + (D,), last dim (x, ...)."""
+    axes = [(np.arange(n, dtype=np.float64) - (n - 1) / 2.0) for n in shape]
+    mg = np.meshgrid(*axes, indexing="ij")
+    return np.stack([mg[len(shape) - 1 - c] * h[c] for c in range(len(shape))], axis=-1)
+
+
+def affine_on(M, P) -> np.ndarray:
+    D = P.shape[-1]
+    Ph = np.concatenate([P, np.ones(P.shape[:-1] + (1,))], axis=-1)
+    return np.ascontiguousarray(np.moveaxis((Ph @ M.T)[..., :D], -1, 0))
+
+
+def rel32(h) -> float:
+    return max(abs(float(np.float32(x)) - float(x)) / float(x) for x in h)
+
+
+def _bracket_tol(mv, jv, mu, ju, g, eps, e32):
+    return C * (4.0 * eps * g * mv * mu + e32 * (jv * mu + ju * mv))
+
+
+def case_spacing_forms(case) -> Result:
+    """lie_bracket / compose_svfs with every form of `spacing` and N in {1,2,3}: batched == per-item (the per-item
+    call uses the (D,) vector form of that item's row), antisymmetry, bilinearity, closed form on affine fields."""
+    from deepali.core.flow import compose_svfs, lie_bracket
+
+    r = Result()
+    shape, dtype, N, form, fields = tuple(case["shape"]), case["dtype"], case["N"], case["form"], case["fields"]
+    D = len(shape)
+    eps = EPS[dtype]
+    arg, H = spacing_of(form, shape, N)
+    tail = f"form={form}/N={N}/{dtype}/fields={fields}"
+    us, vs, v2s, mats = [], [], [], []
+    for i in range(N):
+        P = lattice_points(shape, H[i])
+        if fields == "affine":
+            nu, nv = ITEM_PAIRS[i]
+            U, V, V2 = disp_matrix(nu, D, case["seed"]), disp_matrix(nv, D, case["seed"]), disp_matrix("iso", D, case["seed"]) + 0.5 * disp_matrix("skew", D, case["seed"])
+            us.append(affine_on(U, P)); vs.append(affine_on(V, P)); v2s.append(affine_on(V2, P)); mats.append((U, V, P))
+        else:
+            us.append(fa.generic_field(shape, True, case["seed"] + i, 0.8)); vs.append(fa.generic_field(shape, False, case["seed"] + i + 1, 0.6))
+            v2s.append(fa.generic_field(shape, True, case["seed"] + i + 2, 0.5)); mats.append(None)
+    tu, tv, tv2 = _t(np.stack(us), dtype), _t(np.stack(vs), dtype), _t(np.stack(v2s), dtype)
+    uu, vv, vv2 = _np(tu), _np(tv), _np(tv2)
+
+    def item_arg(i):
+        return tuple(float(x) for x in H[i])
+
+    def tol_item(i, a, b):
+        hmin = float(H[i].min())
+        return _bracket_tol(float(np.abs(a[i]).max()), jac_bound(a[i], shape, hmin), float(np.abs(b[i]).max()), jac_bound(b[i], shape, hmin), gain(shape, D, hmin), eps, rel32(H[i]))
+
+    def call(fn, *a, **kw):
+        st, out = guarded(fn, *a, **kw)
+        r.trans += 1
+        return st, out
+
+    if case["op"] == "bracket":
+        st, A = call(lie_bracket, tv, tu, spacing=arg)
+        st2, B = call(lie_bracket, tu, tv, spacing=arg)
+        comb = tv * 2.0 + tv2 * (-0.5)
+        st3, Cb = call(lie_bracket, comb, tu, spacing=arg)
+        st4, A2 = call(lie_bracket, tv2, tu, spacing=arg)
+        for s_, o_ in ((st, A), (st2, B), (st3, Cb), (st4, A2)):
+            if s_ == "raises":
+                r.bad(f"C13/spacing-forms/op=bracket/{tail}/raises={type(o_).__name__}", exc_text(o_))
+                return r
+            if not _ok_tensor(o_, uu.shape):
+                r.bad(f"C13/spacing-forms/op=bracket/{tail}/shape", f"{type(o_).__name__} {getattr(o_, 'shape', None)}")
+                return r
+        An, Bn, Cn, A2n = _np(A), _np(B), _np(Cb), _np(A2)
+        r.outcomes.append(h64(An))
+        r.judged += 1
+        for i in range(N):
+            t1 = tol_item(i, vv, uu)
+            if float(np.abs(An[i]).max()) > 1e3 * t1:
+                r.nontriv.append(h64("sf", case["shape"], form, N, dtype, fields, i))
+            e = float(np.abs(An[i] + Bn[i]).max())
+            if not np.isfinite(e) or e > 2 * t1:
+                r.bad(f"C13/spacing-forms/op=bracket/{tail}/antisymmetry", f"item {i}: max |[v,u] + [u,v]| = {e:.3e} > tol {2 * t1:.2e}; |[v,u]| = {float(np.abs(An[i]).max()):.3e} (spacing rows {H.tolist()}, shape {shape})")
+            t2 = tol_item(i, vv2, uu)
+            e = float(np.abs(Cn[i] - (2.0 * An[i] - 0.5 * A2n[i])).max())
+            if not np.isfinite(e) or e > 3 * (2 * t1 + 0.5 * t2):
+                r.bad(f"C13/spacing-forms/op=bracket/{tail}/bilinearity", f"item {i}: max |[2v - v2/2, u] - 2[v,u] + [v2,u]/2| = {e:.3e} > tol {3 * (2 * t1 + 0.5 * t2):.2e} (spacing rows {H.tolist()}, shape {shape})")
+            st, Si = call(lie_bracket, tv[i : i + 1], tu[i : i + 1], spacing=item_arg(i))
+            if st == "raises":
+                r.bad(f"C13/spacing-forms/op=bracket/{tail}/per-item/raises={type(Si).__name__}", exc_text(Si))
+                continue
+            e = float(np.abs(An[i] - _np(Si)[0]).max())
+            if not np.isfinite(e) or e > 2 * t1:
+                r.bad(f"C13/spacing-forms/op=bracket/{tail}/batched-vs-per-item", f"item {i} of the batched call differs from the single-item call with spacing {item_arg(i)} by {e:.3e} > tol {2 * t1:.2e} (spacing rows {H.tolist()}, shape {shape})")
+            if mats[i] is not None:
+                U, V, P = mats[i]
+                exp = affine_on(fa.comm(V, U), P)
+                e = float(np.abs(An[i] - exp).max())
+                if not np.isfinite(e) or e > t1:
+                    r.bad(f"C13/spacing-forms/op=bracket/{tail}/closed-form", f"item {i}: max |[v,u] - (VU-UV)x| = {e:.3e} > tol {t1:.2e} (spacing rows {H.tolist()}, shape {shape})")
+        return r
+    # compose_svfs
+    k = case["terms"]
+    st, W = call(compose_svfs, tu, tv, bch_terms=k, spacing=arg)
+    if st == "raises":
+        r.bad(f"C13/spacing-forms/op=svfs/{tail}/terms={k}/raises={type(W).__name__}", exc_text(W))
+        return r
+    if not _ok_tensor(W, uu.shape):
+        r.bad(f"C13/spacing-forms/op=svfs/{tail}/terms={k}/shape", f"{type(W).__name__} {getattr(W, 'shape', None)}")
+        return r
+    Wn = _np(W)
+    r.outcomes.append(h64(Wn))
+    r.judged += 1
+    for i in range(N):
+        hmin = float(H[i].min())
+        g = gain(shape, D, hmin)
+        mu, mv = float(np.abs(uu[i]).max()), float(np.abs(vv[i]).max())
+        if mats[i] is not None:
+            U, V, P = mats[i]
+            vu = fa.comm(V, U)
+            vvu = fa.comm(V, vu)
+            exact = (float(np.abs(affine_on(vu, P)).max()), lin_norm(vu), float(np.abs(affine_on(vvu, P)).max()), lin_norm(vvu))
+            tol = C * bch_noise(mu, lin_norm(U), mv, lin_norm(V), k, g, eps, rel32(H[i]), exact)
+            exp = affine_on(fa.bch_series(U, V, k), P)
+            e = float(np.abs(Wn[i] - exp).max())
+            if float(np.abs(exp - uu[i] - vv[i]).max()) > 1e3 * tol:
+                r.nontriv.append(h64("sfs", case["shape"], form, N, dtype, k, i))
+            if not np.isfinite(e) or e > tol:
+                r.bad(f"C13/spacing-forms/op=svfs/{tail}/terms={k}/closed-form", f"item {i}: max |compose_svfs - documented BCH partial sum| = {e:.3e} > tol {tol:.2e} (spacing rows {H.tolist()}, shape {shape})")
+        else:
+            ju, jv = jac_bound(uu[i], shape, hmin), jac_bound(vv[i], shape, hmin)
+            big = g * mu * mv
+            tol = C * bch_noise(mu, ju, mv, jv, k, g, eps, rel32(H[i]), (big, 0.5 * g * big, g * mv * big, 0.5 * g * g * mv * big))
+        st, Si = call(compose_svfs, tu[i : i + 1], tv[i : i + 1], bch_terms=k, spacing=item_arg(i))
+        if st == "raises":
+            r.bad(f"C13/spacing-forms/op=svfs/{tail}/terms={k}/per-item/raises={type(Si).__name__}", exc_text(Si))
+            continue
+        e = float(np.abs(Wn[i] - _np(Si)[0]).max())
+        if not np.isfinite(e) or e > 2 * tol:
+            r.bad(f"C13/spacing-forms/op=svfs/{tail}/terms={k}/batched-vs-per-item", f"item {i} of the batched call differs from the single-item call with spacing {item_arg(i)} by {e:.3e} > tol {2 * tol:.2e} (spacing rows {H.tolist()}, shape {shape})")
+    return r
+
+
+# ---------------------------------------------------------------------------
+# round 4 (b): option lattice of logv / expv boundary values, and "the given fields are not overwritten"
+def fingerprint(t: torch.Tensor):
+    return (t._version, t.data_ptr(), tuple(t.shape), tuple(t.stride()), t.detach().clone())
+
+
+def changed(t: torch.Tensor, fp) -> str:
+    """'' if the tensor is bit-for-bit what it was (NaN-safe), else a description."""
+    if tuple(t.shape) != fp[2] or tuple(t.stride()) != fp[3] or t.data_ptr() != fp[1]:
+        return "metadata changed"
+    a, b = t.detach(), fp[4]
+    if not torch.equal(a, b) and not bool(((a == b) | (torch.isnan(a) & torch.isnan(b))).all()):
+        return f"values changed by up to {float((a.double() - b.double()).abs().max()):.3e}"
+    if t._version != fp[0]:
+        return f"_version {fp[0]} -> {t._version} (written in place)"
+    return ""
+
+
+def anchor_calls(D):
+    """Calls of the anchor set with boundary option values: (name, function of (u, v, ac) -> result)."""
+    from deepali.core.flow import compose_flows, compose_svfs, expv, lie_bracket, logv
+
+    out = []
+    for steps in (0, 1, None):
+        for scale in (None, 1, 0.5, -1.0):
+            for inverse in (False, True):
+                out.append((f"expv(steps={steps},scale={scale},inverse={inverse})", lambda u, v, ac, st=steps, sc=scale, inv=inverse: expv(u, scale=sc, steps=st, align_corners=ac, inverse=inv)))
+    out.append(("compose_flows", lambda u, v, ac: compose_flows(u, v, align_corners=ac)))
+    out.append(("compose_flows(u,u)", lambda u, v, ac: compose_flows(u, u, align_corners=ac)))
+    for k in range(6):
+        for sg in (None, 1.0):
+            out.append((f"compose_svfs(bch_terms={k},sigma={sg})", lambda u, v, ac, k=k, sg=sg: compose_svfs(u, v, bch_terms=k, sigma=sg)))
+    out.append(("compose_svfs(u,u)", lambda u, v, ac: compose_svfs(u, u, bch_terms=3)))
+    for kw in ({}, {"sigma": 1.0}, {"mode": "central"}, {"spacing": 0.5}):
+        out.append((f"lie_bracket({','.join(f'{a}={b}' for a, b in kw.items())})", lambda u, v, ac, kw=kw: lie_bracket(v, u, **kw)))
+    out.append(("lie_bracket(u,u)", lambda u, v, ac: lie_bracket(u, u)))
+    for es in (0, 1, None):
+        for ni in (1, 2):
+            for bt in (0, 1, 3):
+                for sg in (None, 1.0):
+                    out.append((f"logv(exp_steps={es},num_iters={ni},bch_terms={bt},sigma={sg})", lambda u, v, ac, es=es, ni=ni, bt=bt, sg=sg: logv(u, num_iters=ni, bch_terms=bt, sigma=sg, exp_steps=es, align_corners=ac)))
+    out.append(("logv(num_iters=0)", lambda u, v, ac: logv(u, num_iters=0, align_corners=ac)))
+    return out
+
+
+def case_input_unchanged(case) -> Result:
+    """The fields handed to compose_flows / compose_svfs / lie_bracket / logv / expv are still the given fields after
+    the call (bit pattern and _version): the statement relates results to the GIVEN fields."""
+    r = Result()
+    shape, ac, dtype, N = tuple(case["shape"]), case["ac"], case["dtype"], case["N"]
+    D = len(shape)
+    name, fn = anchor_calls(D)[case["call"]]
+    amp = 0.6 / max(shape)  # about a third of a sample
+    u = np.stack([fa.generic_field(shape, ac, case["seed"] + i, amp) for i in range(N)])
+    v = np.stack([fa.generic_field(shape, ac, case["seed"] + 1 + i, 0.7 * amp) for i in range(N)])
+    tu, tv = _t(u, dtype), _t(v, dtype)
+    fu, fv = fingerprint(tu), fingerprint(tv)
+    st, out = guarded(fn, tu, tv, ac)
+    r.trans += 1
+    fname = name.split("(")[0]
+    tail = f"{_tail(case)}"
+    if st == "raises":
+        r.bad(f"C13/input-unchanged/fn={fname}/{tail}/raises={type(out).__name__}", f"{name}: {exc_text(out)}")
+        return r
+    r.judged += 1
+    if isinstance(out, torch.Tensor):
+        r.outcomes.append(h64(_np(out)))
+        if out.data_ptr() != tu.data_ptr():
+            r.nontriv.append(h64("iu", case["shape"], ac, dtype, N, name))
+    for arg, t, fp in (("first", tu, fu), ("second", tv, fv)):
+        c = changed(t, fp)
+        if c:
+            r.bad(f"C13/input-unchanged/fn={fname}/{tail}/arg={arg}/overwritten", f"{name}: {arg} field argument {c} (shape {shape})")
+    return r
+
+
+LOGV_OPTIONS = [(es, ni, sg, bt) for es in (0, 1, None) for ni in (1, 2, 3) for sg in (None, 1.0) for bt in (0, 1)]
+
+
+def case_logv_options(case) -> Result:
+    """logv(expv(v)) over the boundary values of its options: error <= 0.5 A samples (the stated bound), the given
+    displacement field is not overwritten, and repeating the call gives the same result."""
+    from deepali.core.flow import expv, logv
+
+    r = Result()
+    shape, ac, dtype, N = tuple(case["shape"]), case["ac"], case["dtype"], case["N"]
+    A = case["amp"]
+    es, ni, sg, bt = case["exp_steps"], case["iters"], case["sigma"], case["terms"]
+    v = np.stack([fa.smooth_field(shape, ac, "a" if i == 0 else "b", case["seed"], A) for i in range(N)])
+    tv = _t(v, dtype)
+    tail = f"exp_steps={es}/sigma={sg}/{_tail(case)}"
+    st, u = guarded(lambda: expv(tv, align_corners=ac))
+    r.trans += 1
+    if st == "raises":
+        r.bad(f"C13/logv-options/{tail}/expv/raises={type(u).__name__}", exc_text(u))
+        return r
+    fu = fingerprint(u)
+    st, w = guarded(lambda: logv(u, num_iters=ni, bch_terms=bt, sigma=sg, exp_steps=es, align_corners=ac))
+    r.trans += 1
+    if st == "raises":
+        r.bad(f"C13/logv-options/{tail}/raises={type(w).__name__}", exc_text(w))
+        return r
+    if not _ok_tensor(w, v.shape):
+        r.bad(f"C13/logv-options/{tail}/shape", f"{type(w).__name__} {getattr(w, 'shape', None)}")
+        return r
+    r.judged += 1
+    wn = _np(w)
+    r.outcomes.append(h64(wn))
+    r.nontriv.append(h64("lo", case["shape"], ac, dtype, N, A, es, ni, sg, bt))
+    c = changed(u, fu)
+    if c:
+        r.bad(f"C13/logv-options/{tail}/input-overwritten", f"logv(num_iters={ni}, bch_terms={bt}): the given displacement field {c}")
+    vv = _np(tv)
+    err = max(float(np.abs(fa.to_samples(wn[i] - vv[i], ac)).max()) for i in range(N))
+    if not np.isfinite(err) or err > 0.5 * A:
+        r.bad(f"C13/logv-options/{tail}/bound", f"|logv(expv(v)) - v| = {err:.3e} samples > 0.5*A = {0.5 * A:.3e} (A={A}, num_iters={ni}, bch_terms={bt}, shape {shape})")
+    if not c:
+        st, w2 = guarded(lambda: logv(u, num_iters=ni, bch_terms=bt, sigma=sg, exp_steps=es, align_corners=ac))
+        r.trans += 1
+        if st == "ok" and isinstance(w2, torch.Tensor) and not torch.equal(w2, w):
+            r.bad(f"C13/logv-options/{tail}/not-repeatable", f"the same logv call on the same field gives a different result the second time (max diff {float((w2 - w).abs().max()):.3e})")
+    return r
+
+
 KINDS = {
     "compose-affine": case_compose_affine,
     "compose-identity": case_compose_identity,
@@ -981,6 +1299,9 @@ KINDS = {
     "logv-roundtrip": case_logv,
     "call-sequence": case_call_sequence,
     "compose-translation": case_compose_translation,
+    "spacing-forms": case_spacing_forms,
+    "input-unchanged": case_input_unchanged,
+    "logv-options": case_logv_options,
 }
 
 AMPS = [0.1, 0.25, 0.5]
@@ -1003,6 +1324,23 @@ def cases_of(shard):
             for uspec in TRANSL_U:
                 for vi in range(len(TRANSL_V)):
                     yield {**base, "N": N, "u": uspec, "v": vi}
+    elif kind == "spacing-forms":
+        for N in (1, 2, 3):
+            for form in SPACING_FORMS:
+                for fields in ("affine", "generic"):
+                    yield {**base, "N": N, "form": form, "fields": fields, "op": "bracket"}
+                    for k in (1, 3, 5) if fields == "affine" else (3,):
+                        yield {**base, "N": N, "form": form, "fields": fields, "op": "svfs", "terms": k}
+    elif kind == "input-unchanged":
+        for N in (1, 2):
+            for ci in range(len(anchor_calls(len(shard["shape"])))):
+                yield {**base, "N": N, "call": ci}
+    elif kind == "logv-options":
+        for amp in (0.1, 0.5):
+            for es, ni, sg, bt in LOGV_OPTIONS:
+                yield {**base, "N": 1, "amp": amp, "exp_steps": es, "iters": ni, "sigma": sg, "terms": bt}
+            for es in (0, 1, None):
+                yield {**base, "N": 2, "amp": amp, "exp_steps": es, "iters": 2, "sigma": None, "terms": 1}
     elif kind == "compose-identity":
         for N in (1, 2):
             for f in IDENTITY_FIELDS:
@@ -1068,6 +1406,15 @@ def shards(tier: str, seed: int):
             for ac in (True, False):
                 for kind in ("compose-affine", "compose-identity", "compose-translation", "bch-commuting", "bch-affine-series", "bch-affine-error"):
                     out.append({"tier": tier, "seed": seed, "kind": kind, "shape": list(shape), "ac": ac, "dtype": dtype})
+    for shape in SPACING_SHAPES + ([(8, 8), (6, 5, 4)] if tier == "thorough" else []):
+        for dtype in ("f32", "f64"):
+            out.append({"tier": tier, "seed": seed, "kind": "spacing-forms", "shape": list(shape), "dtype": dtype})
+            for ac in (True, False):
+                out.append({"tier": tier, "seed": seed, "kind": "input-unchanged", "shape": list(shape), "ac": ac, "dtype": dtype})
+    for shape in smooth_shapes(tier):
+        for ac in (True, False):
+            for dtype in ("f32",) if tier == "quick" else ("f32", "f64"):
+                out.append({"tier": tier, "seed": seed, "kind": "logv-options", "shape": list(shape), "ac": ac, "dtype": dtype})
     for shape in affine_shapes(tier):
         # one process per shape: all ordered pairs of configurations are called one after the other
         out.append({"tier": tier, "seed": seed, "kind": "call-sequence", "shape": list(shape), "dtype": "mixed"})
